@@ -2,6 +2,11 @@
     get, get_headers_for_request, get_by_request, first}], [get_header], [apply_header]) and of its
     call sites in [kvarn::handle_cache] / [handle_cache_helpers::handle_vary_missing] (src/lib.rs).
 
+    A request is handled as the Prime extensions left it ([Extensions::resolve_prime]): the request itself, with the URI
+    the rewriting Primes gave it, and the internal URI ("/./...") a Prime may have answered with — the *override* URI, under
+    which the page is handled, looked up, cached, and whose vary rules apply (both in the arm of [handle_cache] that creates a
+    cache item and in [handle_vary_missing]).
+
     The response-cache layer is the one of Model/Cache.v (C03/C04), but the variants of an entry are
     the vector the code keeps — sorted for [Ord for [Header]], searched with rustc 1.95's
     [binary_search_by] (Model/RustStd.v), inserted at the position the search returned — instead of
@@ -217,22 +222,35 @@ Definition vrelookup (k : key) (c : vcache) (now : N) : (key * option ventry) * 
       end
   end.
 
+(** ---- a request after [Extensions::resolve_prime]: the request as the rewriting Primes left it, and the internal
+    override URI (path, query) if a Prime answered with a URI that starts with "/./" ---- *)
+Definition ovr := option (bytes * option bytes).
+Definition routed := (request * ovr)%type.
+(** the URI that [handle_cache] looks up, [get_response] hands to [handle_request] and caches under, and whose path selects
+    the vary rules: [overide_uri.unwrap_or(request.uri())] (Model/CacheX.v [lookup_req]) — as a request with the method and
+    the headers of the real one ([lreq_same] in Proofs/VaryProofs.v), so that everything the cache layer reads is read off it *)
+Definition lreq (q : routed) : request := lookup_req (fst q) (snd q).
+(** the path the response is cached under *)
+Definition cpath (q : routed) : bytes := rq_path (lreq q).
+Definition no_route (r : request) : routed := (r, None).
+
 Section LayerV.
   Variable hstate : Type.
-  Variable compute : hstate -> request -> bool (* sanitize ok *) -> fat * hstate * list bytes.
+  (** the layer below ([get_response]: [handle_request] with the request and the override URI, Present extensions) *)
+  Variable compute : hstate -> routed -> bool (* sanitize ok *) -> fat * hstate * list bytes.
   Variable cache_on : bool.
   Variable ims_on : bool.
   Variable parse_ims : bytes -> option Z.
   Variable sanitize_ok : request -> bool.
-  Variable prime : request -> request.
+  Variable prime : request -> routed.          (* [resolve_prime]: every Prime extension, in order *)
   Variable negotiate : request -> fat -> option (N * bytes).
-  Variable rules_of : bytes -> list rule.      (* [host.vary.rules_from_request]: the settings of a request path *)
+  Variable rules_of : bytes -> list rule.      (* [host.vary.rules_from_path]: the settings of a path *)
   Variable dbg : bool.
 
   Definition vstate := (vcache * hstate)%type.
   (** what one request yields: new state, reply, the handlers' own log, and the requests handed to
-      [compute] (the invocation log in handler-independent form: [] or [r]) *)
-  Definition vresult := (vstate * reply * list bytes * list request)%type.
+      [compute] (the invocation log in handler-independent form: [] or [q]) *)
+  Definition vresult := (vstate * reply * list bytes * list routed)%type.
 
   (** [clone_preferred] (content negotiation, abstract) + [apply_header] with the variant's header list *)
   Definition finishV (r : request) (f : fat) (vary : hcoll) (lm cached : bool) : reply :=
@@ -246,17 +264,20 @@ Section LayerV.
     end.
 
   (** [VariedResponse::new] + [first] + [maybe_cache], shared by the miss arm of [handle_cache] and the
-      "entry vanished" arm of [handle_vary_missing] *)
-  Definition new_and_cache (c1 : vcache) (hs' : hstate) (now : N) (r : request) (f : fat) (lg : list bytes)
+      "entry vanished" arm of [handle_vary_missing]: at both sites the rules are those of
+      [overide_uri.unwrap_or(request.uri()).path()] — the path the response is cached under ([get_response]'s
+      [path_query]) — and not those of the request's own path *)
+  Definition new_and_cache (c1 : vcache) (hs' : hstate) (now : N) (q : routed) (f : fat) (lg : list bytes)
              (lm_of : fat -> bool) (cached : bool) : outcome vresult :=
+    let r := lreq q in
     match vr_new dbg f r (rules_of (rq_path r)) with
     | Ok vr =>
         match vr_first vr with
         | Ok (f0, vary) =>
-            let rp := finishV r f0 vary (lm_of f0) cached in
+            let rp := finishV (fst q) f0 vary (lm_of f0) cached in
             if may_store cache_on (rq_method r) f0 then
-              Ok ((pc_insert (insert_key r f0) (mkVE vr now (lifetime_ms f0)) c1, hs'), rp, lg, [r])
-            else Ok ((c1, hs'), rp, lg, [r])
+              Ok ((pc_insert (insert_key r f0) (mkVE vr now (lifetime_ms f0)) c1, hs'), rp, lg, [q])
+            else Ok ((c1, hs'), rp, lg, [q])
         | Err e => Err e
         | Panic => Panic
         end
@@ -265,28 +286,28 @@ Section LayerV.
     end.
 
   (** the miss arm of [handle_cache] *)
-  Definition missV (c1 : vcache) (hs : hstate) (now : N) (r : request) (ok : bool) : outcome vresult :=
-    let '(f, hs', lg) := compute hs r ok in
-    new_and_cache c1 hs' now r f lg (fun f0 => ims_on && wants_cache cache_on (rq_method r) f0) false.
+  Definition missV (c1 : vcache) (hs : hstate) (now : N) (q : routed) (ok : bool) : outcome vresult :=
+    let '(f, hs', lg) := compute hs q ok in
+    new_and_cache c1 hs' now q f lg (fun f0 => ims_on && wants_cache cache_on (rq_method (lreq q)) f0) false.
 
   (** [handle_vary_missing] as it was before the repair (fix commit in the repo worktree): compute, look
       the entry up *again*, clone it, [push_response] at the position found *before* the computation —
       in a possibly different vector —, re-insert with the remaining lifetime.
       [c1] is the cache at the time of the second lookup. *)
-  Definition vary_missing_v0 (c1 : vcache) (hs : hstate) (now : N) (r : request) (ok : bool)
+  Definition vary_missing_v0 (c1 : vcache) (hs : hstate) (now : N) (q : routed) (ok : bool)
              (k : key) (position : nat) (headers : hcoll) : outcome vresult :=
-    let '(f, hs', lg) := compute hs r ok in
+    let '(f, hs', lg) := compute hs q ok in
     let '((k', found'), c2) := vrelookup k c1 now in
     match found' with
     | Some e' =>
         match vr_push dbg (ve_var e') f position headers with
         | Ok (vr', (f1, vary1)) =>
             let e'' := mkVE vr' now (option_map (fun l => l - (now - ve_created e')) (ve_life e')) in
-            Ok ((pc_insert k' e'' c2, hs'), finishV r f1 vary1 ims_on true, lg, [r])
+            Ok ((pc_insert k' e'' c2, hs'), finishV (fst q) f1 vary1 ims_on true, lg, [q])
         | Err e => Err e
         | Panic => Panic
         end
-    | None => new_and_cache c2 hs' now r f lg (fun _ => ims_on) true
+    | None => new_and_cache c2 hs' now q f lg (fun _ => ims_on) true
     end.
 
   (** [handle_vary_missing] as it is now (repairs aa05eaf, 8fe98d4, 92a9cd2): the position is searched for again in
@@ -299,14 +320,15 @@ Section LayerV.
       [MokaCache::insert] (checked after [push_response] on the clone).  A variant that is not admitted is served
       and the entry left as it is. *)
   Definition key_has_query (k : key) : bool := match k with KPathQuery _ _ => true | KPath _ => false end.
-  Definition vary_missing (c1 : vcache) (hs : hstate) (now : N) (r : request) (ok : bool)
+  Definition vary_missing (c1 : vcache) (hs : hstate) (now : N) (q : routed) (ok : bool)
              (k : key) (position : nat) (headers : hcoll) : outcome vresult :=
-    let '(f, hs', lg) := compute hs r ok in
+    let r := lreq q in
+    let '(f, hs', lg) := compute hs q ok in
     let '((k', found'), c2) := vrelookup k c1 now in
     match found' with
     | Some e' =>
         match vr_get_by_request (ve_var e') r with
-        | Ok (Hit _) => Ok ((c2, hs'), finishV r f headers ims_on true, lg, [r])
+        | Ok (Hit _) => Ok ((c2, hs'), finishV (fst q) f headers ims_on true, lg, [q])
         | Ok (Miss position' headers') =>
             let accepted := wants_cache cache_on (rq_method r) f
                             && (negb (f_spref f =? SP_QUERY) || key_has_query k') in
@@ -316,15 +338,15 @@ Section LayerV.
                   let remaining := option_map (fun l => l - (now - ve_created e')) (ve_life e') in
                   let e'' := mkVE vr' now (min_life remaining (lifetime_ms f)) in
                   Ok (((if N.of_nat (length (f_body f)) <? size_limit then pc_insert k' e'' c2 else c2), hs'),
-                      finishV r f1 vary1 ims_on true, lg, [r])
+                      finishV (fst q) f1 vary1 ims_on true, lg, [q])
               | Err e => Err e
               | Panic => Panic
               end
-            else Ok ((c2, hs'), finishV r f headers' ims_on true, lg, [r])
+            else Ok ((c2, hs'), finishV (fst q) f headers' ims_on true, lg, [q])
         | Err e => Err e
         | Panic => Panic
         end
-    | None => new_and_cache c2 hs' now r f lg (fun _ => ims_on) true
+    | None => new_and_cache c2 hs' now q f lg (fun _ => ims_on) true
     end.
 
   (** [handle_cache] has one suspension point that matters here: the [.await] on the layer below
@@ -333,8 +355,8 @@ Section LayerV.
       everything after; other requests may run in between (the cache handed to phase 2 is then a
       different one). *)
   Inductive parked :=
-  | PkMiss (r : request) (ok : bool)
-  | PkVary (r : request) (ok : bool) (k : key) (position : nat) (headers : hcoll).
+  | PkMiss (q : routed) (ok : bool)
+  | PkVary (q : routed) (ok : bool) (k : key) (position : nat) (headers : hcoll).
 
   (** [fix_ims = true]: the code as it is (repair 832d735): [client_request_is_fresh] also needs
       [resp.get_by_request(request).is_ok()] — only a variant that is in the cache can be vouched for;
@@ -342,8 +364,9 @@ Section LayerV.
   Definition serveV_phase1_gen (fix_ims : bool) (st : vstate) (now : N) (r0 : request) : outcome (vresult + vcache * parked) :=
     let '(c, hs) := st in
     let ok := sanitize_ok r0 in
-    let r := prime r0 in
-    if negb cache_on then Ok (inr (c, PkMiss r ok))
+    let q := prime r0 in
+    let r := lreq q in                    (* the URI looked up: the override URI if a Prime gave one *)
+    if negb cache_on then Ok (inr (c, PkMiss q ok))
     else
     let '((k, found0), c1) := vlookup r c now in
     match found0 with
@@ -360,13 +383,13 @@ Section LayerV.
                         rp_last_modified := ims_on; rp_from_cache := true |}, [], []))
           else
             match got with
-            | Ok (Hit (f, vary)) => Ok (inl ((c1, hs), finishV r f vary ims_on true, [], []))
-            | Ok (Miss position headers) => Ok (inr (c1, PkVary r ok k position headers))
+            | Ok (Hit (f, vary)) => Ok (inl ((c1, hs), finishV (fst q) f vary ims_on true, [], []))
+            | Ok (Miss position headers) => Ok (inr (c1, PkVary q ok k position headers))
             | Err e0 => Err e0
             | Panic => Panic
             end
-        else Ok (inr (c1, PkMiss r ok))
-    | None => Ok (inr (c1, PkMiss r ok))
+        else Ok (inr (c1, PkMiss q ok))
+    | None => Ok (inr (c1, PkMiss q ok))
     end.
 
   Definition serveV_phase1 := serveV_phase1_gen true.
@@ -408,7 +431,7 @@ Section LayerV.
                     | None => false
                     end.
 
-  Definition stepV (st : vstate) (now : N) (o : op) : outcome (vstate * N * obs * list request) :=
+  Definition stepV (st : vstate) (now : N) (o : op) : outcome (vstate * N * obs * list routed) :=
     match o with
     | OReq r =>
         match serveV st now r with
@@ -424,7 +447,7 @@ Section LayerV.
     end.
 
   (** a history; a panic anywhere aborts the run (as [catch_unwind] around the harness does) *)
-  Fixpoint runV (st : vstate) (now : N) (ops : list op) : outcome (list (obs * list request)) :=
+  Fixpoint runV (st : vstate) (now : N) (ops : list op) : outcome (list (obs * list routed)) :=
     match ops with
     | [] => Ok []
     | o :: rest =>
@@ -452,9 +475,11 @@ Section LayerV.
     end.
 
   (** ---- the specification: a server that keeps a finite map
-           (page path, transformed header list) -> response,
-      computes on a map miss and never otherwise.  It describes hosts whose cacheable responses are
-      stored under the path key and never expire (hypotheses of [vary_refines_map]). ---- *)
+           (path the page is cached under, transformed header list) -> response,
+      computes on a map miss and never otherwise; the transformed list is the one the rules of THAT path (the
+      override path of an internal route, else the request's) make of the request's headers.  It describes
+      hosts whose cacheable responses are stored under the path key and never expire (hypotheses of
+      [vary_refines_map]). ---- *)
   Definition hc_eqb (a c : hcoll) : bool := match cmp_hcoll a c with Eq => true | _ => false end.
   Definition seen_t := list (bytes * hcoll * fat).
   Fixpoint seen_find (p : bytes) (t : hcoll) (s : seen_t) : option fat :=
@@ -466,21 +491,22 @@ Section LayerV.
   Definition seen_clear (p : bytes) (s : seen_t) : seen_t := filter (fun e => negb (beq p (fst (fst e)))) s.
   Definition own_tuple (r : request) : hcoll := headers_for_request (rules_of (rq_path r)) r.
 
-  Definition spec_serve (s : seen_t) (hs : hstate) (r0 : request) : seen_t * hstate * reply * list bytes * list request :=
-    let r := prime r0 in
+  Definition spec_serve (s : seen_t) (hs : hstate) (r0 : request) : seen_t * hstate * reply * list bytes * list routed :=
+    let q := prime r0 in
+    let r := lreq q in
     let gh := get_or_head (rq_method r) in
     let computed :=
-      let '(f, hs', lg) := compute hs r true in
+      let '(f, hs', lg) := compute hs q true in
       ((if gh && cache_on then (rq_path r, own_tuple r, f) :: s else s), hs',
-       finishV r f (own_tuple r) (ims_on && gh && cache_on) (cache_on && gh && seen_has_page (rq_path r) s), lg, [r]) in
+       finishV (fst q) f (own_tuple r) (ims_on && gh && cache_on) (cache_on && gh && seen_has_page (rq_path r) s), lg, [q]) in
     if gh && cache_on then
       match seen_find (rq_path r) (own_tuple r) s with
-      | Some f => (s, hs, finishV r f (own_tuple r) ims_on true, [], [])
+      | Some f => (s, hs, finishV (fst q) f (own_tuple r) ims_on true, [], [])
       | None => computed
       end
     else computed.
 
-  Definition spec_step (s : seen_t) (hs : hstate) (o : op) : seen_t * hstate * obs * list request :=
+  Definition spec_step (s : seen_t) (hs : hstate) (o : op) : seen_t * hstate * obs * list routed :=
     match o with
     | OReq r => let '(s', hs', rp, lg, calls) := spec_serve s hs r in (s', hs', ObReply rp lg, calls)
     | OClearPage r =>
@@ -495,7 +521,7 @@ Section LayerV.
     | OWait _ => (s, hs, ObNone, [])
     end.
 
-  Fixpoint spec_run (s : seen_t) (hs : hstate) (ops : list op) : list (obs * list request) :=
+  Fixpoint spec_run (s : seen_t) (hs : hstate) (ops : list op) : list (obs * list routed) :=
     match ops with
     | [] => []
     | o :: rest => let '(s', hs', ob, calls) := spec_step s hs o in (ob, calls) :: spec_run s' hs' rest
@@ -534,8 +560,49 @@ Definition handlers_c05 (handlers : list hspec) (r : request) : list hspec :=
                           | None => h_spref h
                           end) (h_cpref h) (h_compress h) (h_tuple h)
                 else h) handlers.
-Definition compute_c05 (handlers : list hspec) (hs : list N) (r : request) (ok : bool) : fat * list N * list bytes :=
-  compute_fix (handlers_c05 handlers r) hs r ok.
+(** [handle_request]: the error page of a request that failed sanitize; else the Prepare extension bound to the path of
+    the URI that is looked up ([resolve_prepare]: [overide_uri.unwrap_or(request.uri()).path()]) — with the default
+    extensions "/./cors_fail" is bound to the CORS denial (Model/CacheX.v) —, which is handed the request itself (its own
+    URI, its headers): a kind-1 or kind-5 handler on an internal route echoes the public path / query *)
+(** the Prepare extension [Extensions::with_disallow_cors] binds to "/./cors_fail": since kvarn d00feae it declares
+    [ServerCachePreference::None] (never stored; it still gets the [vary] header of the rules of "/./cors_fail") *)
+Definition cors_denied_fat : fat :=
+  {| f_status := 403; f_headers := with_client_cache 3 []; f_body := B "CORS request denied"; f_spref := SP_NONE;
+     f_compress := true |}.
+Definition compute_c05 (default_ext : bool) (handlers : list hspec) (hs : list N) (q : routed) (ok : bool)
+  : fat * list N * list bytes :=
+  let r := fst q in
+  if negb ok then compute_fix handlers hs r ok
+  else if default_ext && beq (cpath q) CORS_FAIL then (cors_denied_fat, hs, [])
+  else
+    match find_handler_last (cpath q) (handlers_c05 handlers r) O None with
+    | Some (i, h) =>
+        let '(hs', n) := bump i hs in
+        ({| f_status := h_status h; f_headers := with_client_cache (h_cpref h) (h_headers h);
+            f_body := handler_body h n r; f_spref := h_spref h; f_compress := h_compress h |},
+         hs', [B "h" ++ dec (N.of_nat i)])
+    | None => (error_fat 404 SP_FULL, hs, [])
+    end.
+
+(** cfg [ovroutes] (harness/src/c05.rs): ONE Prime extension, run after those of [Extensions::new], that answers a request
+    whose path is the first component with the internal URI in the second (only targets that start with "/./" are mounted) *)
+Definition route_t := (bytes * (bytes * option bytes))%type.
+Definition d_routes (c : xval) : list route_t :=
+  match c with
+  | XL l =>
+      match kv_get (B "ovroutes") l with
+      | Some (XL rs) =>
+          filter (fun e : route_t => starts_with (B "/./") (fst (snd e)))
+                 (concat (map (fun x => match x with XL [XB from; XB to] => [(from, split_target to [])] | _ => [] end) rs))
+      | _ => []
+      end
+  | _ => []
+  end.
+Definition route_fix (routes : list route_t) (r : request) : ovr :=
+  match find (fun e : route_t => beq (fst e) (rq_path r)) routes with
+  | Some e => Some (snd e)
+  | None => None
+  end.
 
 (** operations of the harness (harness/src/c05.rs): those of the pipeline harness, a dump of the stored
     variants of a page, and a request that is suspended in its handler ([FPark]) until [FRelease] while
@@ -562,40 +629,48 @@ Definition x_dump (c : vcache) (r : request) : xval :=
 Definition x_dump_spec (s : seen_t) (r : request) : xval :=
   XL (map (fun e => x_hcoll (snd (fst e))) (rev (filter (fun e => beq (rq_path r) (fst (fst e))) s))).
 
-Definition prime_fix (cfg : config) : request -> request := if cf_default_ext cfg then uri_redirect else (fun r => r).
+(** [resolve_prime] of the fixture: with the default extensions the redirect Prime rewrites the URI ("<p>/" ->
+    "<p>/index.html", "<p>." -> "<p>.html") and the CORS Prime answers "/./cors_fail" to a foreign [origin]
+    (Model/CacheX.v [cors_override]); then the Prime of cfg [ovroutes] — the last internal answer wins *)
+Definition prime_fix (cfg : config) (routes : list route_t) (r0 : request) : routed :=
+  let r := if cf_default_ext cfg then uri_redirect r0 else r0 in
+  (r, match route_fix routes r with
+      | Some o => Some o
+      | None => if cf_default_ext cfg then cors_override r0 else None
+      end).
 
-Definition stepV_fix (cfg : config) :=
-  stepV (list N) (compute_c05 (cf_handlers cfg)) (cf_cache cfg) (cf_ims cfg) parse_ims_fix sanitize_ok_fix
-        (prime_fix cfg) (fun _ _ => None) (rules_fix (cf_vary cfg)) true.
+Definition stepV_fix (cfg : config) (routes : list route_t) :=
+  stepV (list N) (compute_c05 (cf_default_ext cfg) (cf_handlers cfg)) (cf_cache cfg) (cf_ims cfg) parse_ims_fix sanitize_ok_fix
+        (prime_fix cfg routes) (fun _ _ => None) (rules_fix (cf_vary cfg)) true.
 
-Definition phase1_fix (ims0 : bool) (cfg : config) :=
+Definition phase1_fix (ims0 : bool) (cfg : config) (routes : list route_t) :=
   serveV_phase1_gen (list N) (cf_cache cfg) (cf_ims cfg) parse_ims_fix sanitize_ok_fix
-        (prime_fix cfg) (fun _ _ => None) (negb ims0).
+        (prime_fix cfg routes) (fun _ _ => None) (negb ims0).
 Definition phase2_fix (v0 : bool) (cfg : config) :=
-  (if v0 then serveV_phase2_v0 else serveV_phase2) (list N) (compute_c05 (cf_handlers cfg)) (cf_cache cfg) (cf_ims cfg)
+  (if v0 then serveV_phase2_v0 else serveV_phase2) (list N) (compute_c05 (cf_default_ext cfg) (cf_handlers cfg)) (cf_cache cfg) (cf_ims cfg)
         (fun _ _ => None) (rules_fix (cf_vary cfg)) true.
 
-Definition x_reply (cfg : config) (res : vcache * list N * reply * list bytes * list request) : xval :=
+Definition x_reply (cfg : config) (res : vcache * list N * reply * list bytes * list routed) : xval :=
   let '(_, rp, lg, _) := res in x_obs (cf_report cfg) (ObReply rp lg).
 
 (** [pk]: the suspended request, if any (a second [FPark] while one is suspended is not run: (L (N 96)));
     [v0]: [handle_vary_missing] as it was before the repair aa05eaf; [ims0]: the If-Modified-Since test as it was
     before the repair 832d735 (a request is then run as its two phases, one after the other) *)
-Fixpoint run_fix_ops (v0 ims0 : bool) (cfg : config) (st : vcache * list N) (now : N) (pk : option (parked))
+Fixpoint run_fix_ops (v0 ims0 : bool) (cfg : config) (routes : list route_t) (st : vcache * list N) (now : N) (pk : option (parked))
          (ops : list fop) : outcome (list xval) :=
   let cons (x : xval) (o : outcome (list xval)) : outcome (list xval) :=
     match o with Ok l => Ok (x :: l) | o' => o' end in
   match ops with
   | [] => Ok []
-  | FDump r :: rest => cons (x_dump (fst st) r) (run_fix_ops v0 ims0 cfg st now pk rest)
+  | FDump r :: rest => cons (x_dump (fst st) r) (run_fix_ops v0 ims0 cfg routes st now pk rest)
   | FOp o :: rest =>
       match (if ims0 then match o with OReq r => Some r | _ => None end else None) with
       | Some r =>
-          match phase1_fix ims0 cfg st now r with
-          | Ok (inl res) => cons (x_reply cfg res) (run_fix_ops v0 ims0 cfg (fst (fst (fst res))) now pk rest)
+          match phase1_fix ims0 cfg routes st now r with
+          | Ok (inl res) => cons (x_reply cfg res) (run_fix_ops v0 ims0 cfg routes (fst (fst (fst res))) now pk rest)
           | Ok (inr (c1, p)) =>
               match phase2_fix v0 cfg c1 (snd st) now p with
-              | Ok res => cons (x_reply cfg res) (run_fix_ops v0 ims0 cfg (fst (fst (fst res))) now pk rest)
+              | Ok res => cons (x_reply cfg res) (run_fix_ops v0 ims0 cfg routes (fst (fst (fst res))) now pk rest)
               | Err e => Err e
               | Panic => Panic
               end
@@ -603,29 +678,29 @@ Fixpoint run_fix_ops (v0 ims0 : bool) (cfg : config) (st : vcache * list N) (now
           | Panic => Panic
           end
       | None =>
-          match stepV_fix cfg st now o with
-          | Ok (st', now', ob, _) => cons (x_obs (cf_report cfg) ob) (run_fix_ops v0 ims0 cfg st' now' pk rest)
+          match stepV_fix cfg routes st now o with
+          | Ok (st', now', ob, _) => cons (x_obs (cf_report cfg) ob) (run_fix_ops v0 ims0 cfg routes st' now' pk rest)
           | Err e => Err e
           | Panic => Panic
           end
       end
   | FPark r :: rest =>
       match pk with
-      | Some _ => cons (XL [XN 96]) (run_fix_ops v0 ims0 cfg st now pk rest)
+      | Some _ => cons (XL [XN 96]) (run_fix_ops v0 ims0 cfg routes st now pk rest)
       | None =>
-          match phase1_fix ims0 cfg st now r with
-          | Ok (inl res) => cons (x_reply cfg res) (run_fix_ops v0 ims0 cfg (fst (fst (fst res))) now None rest)
-          | Ok (inr (c1, p)) => cons (XL []) (run_fix_ops v0 ims0 cfg (c1, snd st) now (Some p) rest)
+          match phase1_fix ims0 cfg routes st now r with
+          | Ok (inl res) => cons (x_reply cfg res) (run_fix_ops v0 ims0 cfg routes (fst (fst (fst res))) now None rest)
+          | Ok (inr (c1, p)) => cons (XL []) (run_fix_ops v0 ims0 cfg routes (c1, snd st) now (Some p) rest)
           | Err e => Err e
           | Panic => Panic
           end
       end
   | FRelease :: rest =>
       match pk with
-      | None => cons (XL []) (run_fix_ops v0 ims0 cfg st now None rest)
+      | None => cons (XL []) (run_fix_ops v0 ims0 cfg routes st now None rest)
       | Some p =>
           match phase2_fix v0 cfg (fst st) (snd st) now p with
-          | Ok res => cons (x_reply cfg res) (run_fix_ops v0 ims0 cfg (fst (fst (fst res))) now None rest)
+          | Ok res => cons (x_reply cfg res) (run_fix_ops v0 ims0 cfg routes (fst (fst (fst res))) now None rest)
           | Err e => Err e
           | Panic => Panic
           end
@@ -641,7 +716,7 @@ Definition run_vary_gen (v0 ims0 : bool) (x : xval) : xval :=
       match d_config c, d_all d_fop ops with
       | Some cfg, Some ops' =>
           if negb (rules_ok cfg) then XL [XN 2] else      (* [add_rule] panics while the host is built *)
-          match run_fix_ops v0 ims0 cfg ([], repeat 0 (length (cf_handlers cfg) + 8)) (cf_phase cfg) None ops' with
+          match run_fix_ops v0 ims0 cfg (d_routes c) ([], repeat 0 (length (cf_handlers cfg) + 8)) (cf_phase cfg) None ops' with
           | Ok l => XL l
           | Err e => XL [XN 1; XN e]
           | Panic => XL [XN 2]
@@ -657,25 +732,25 @@ Definition run_vary_v0 := run_vary_gen true false.
 (** the model of the code before the repair 832d735: the 304 is decided before the variant is looked up *)
 Definition run_vary_ims_v0 := run_vary_gen false true.
 
-Definition spec_step_fix (cfg : config) :=
-  spec_step (list N) (compute_c05 (cf_handlers cfg)) (cf_cache cfg) (cf_ims cfg) (prime_fix cfg) (fun _ _ => None)
-            (rules_fix (cf_vary cfg)).
+Definition spec_step_fix (cfg : config) (routes : list route_t) :=
+  spec_step (list N) (compute_c05 (cf_default_ext cfg) (cf_handlers cfg)) (cf_cache cfg) (cf_ims cfg) (prime_fix cfg routes)
+            (fun _ _ => None) (rules_fix (cf_vary cfg)).
 
-Fixpoint spec_fix_ops (cfg : config) (s : seen_t) (hs : list N) (ops : list fop) : list xval :=
+Fixpoint spec_fix_ops (cfg : config) (routes : list route_t) (s : seen_t) (hs : list N) (ops : list fop) : list xval :=
   match ops with
   | [] => []
-  | FDump r :: rest => x_dump_spec s r :: spec_fix_ops cfg s hs rest
-  | FPark _ :: rest | FRelease :: rest => XL [] :: spec_fix_ops cfg s hs rest   (* outside the sequential spec *)
+  | FDump r :: rest => x_dump_spec s r :: spec_fix_ops cfg routes s hs rest
+  | FPark _ :: rest | FRelease :: rest => XL [] :: spec_fix_ops cfg routes s hs rest   (* outside the sequential spec *)
   | FOp o :: rest =>
-      let '(s', hs', ob, _) := spec_step_fix cfg s hs o in
-      x_obs (cf_report cfg) ob :: spec_fix_ops cfg s' hs' rest
+      let '(s', hs', ob, _) := spec_step_fix cfg routes s hs o in
+      x_obs (cf_report cfg) ob :: spec_fix_ops cfg routes s' hs' rest
   end.
 
 Definition run_vary_spec (x : xval) : xval :=
   match x with
   | XL [c; XL ops] =>
       match d_config c, d_all d_fop ops with
-      | Some cfg, Some ops' => XL (spec_fix_ops cfg [] (repeat 0 (length (cf_handlers cfg) + 8)) ops')
+      | Some cfg, Some ops' => XL (spec_fix_ops cfg (d_routes c) [] (repeat 0 (length (cf_handlers cfg) + 8)) ops')
       | _, _ => bad_input
       end
   | _ => bad_input
